@@ -413,14 +413,22 @@ def rule_f(ctx, ix):
             ('world_component_ids', {'world_coord'}, 'world attributes are offered only when world_coord is set')]
     for src, need, what in rows:
         uses = []
+        # the category itself, or a local list computed from it
+        names = {src}
+        for st in walk_no_nested(f.node):
+            if isinstance(st, ast.Assign) and len(st.targets) == 1 and isinstance(st.targets[0], ast.Name) and ('.' + src) in unparse(st.value):
+                names.add(st.targets[0].id)
+
+        def is_src(e):
+            t = unparse(e)
+            return t in names or t.endswith('.' + src)
         for n in walk_no_nested(f.node):
-            if isinstance(n, ast.For) and (unparse(n.iter) == src or unparse(n.iter).endswith('.' + src)) and \
+            if isinstance(n, ast.For) and is_src(n.iter) and \
                     any(call_name(c) in ('append', 'extend') for c in calls_in(n)):
                 uses.append(n)
-            elif isinstance(n, ast.AugAssign) and (unparse(n.value) == src or unparse(n.value).endswith('.' + src)):
+            elif isinstance(n, ast.AugAssign) and is_src(n.value):
                 uses.append(n)
-            elif isinstance(n, ast.Call) and call_name(n) in ('extend',) and n.args and \
-                    (unparse(n.args[0]) == src or unparse(n.args[0]).endswith('.' + src)):
+            elif isinstance(n, ast.Call) and call_name(n) in ('extend',) and n.args and is_src(n.args[0]):
                 uses.append(n)
         if not uses:
             raise AnalysisError('ComponentIDComboHelper.refresh: no use of %s recognised' % src)
